@@ -1,3 +1,275 @@
-import Babylon.Core.Proto
-/-! Line-protocol driver for property C19 (stub). -/
-def main : IO Unit := Babylon.Core.runLines (fun (s : Unit) _ => (s, "bad-op")) ()
+import Babylon.Core.Trace
+import Babylon.Counter.Model
+/-! History replay driver for property C19 (counters / enumerable thread-locals).
+stdin: runs `RUN <seed> …` / VRT trace lines / `END`; stdout per run: `ok <n>` | `diverge <why>`.
+Only harness events (`<tid> ev …`) are interpreted; each is one event of the history model
+(`Babylon.Counter`), the ids the real allocators handed out are the choices of the model's events, and
+every observed location of `local()` and every observed quiescent value is compared with the model's.
+Reads overlapping adds (`call cread` … `ret cread`) are checked against the bound of
+`adder_concurrent_bounds`. -/
+open Babylon.Core Babylon.Counter
+
+inductive Kind | adder | summer | maxer | miner | etl | cetl
+  deriving DecidableEq, Repr
+
+def Kind.ofString : String → Option Kind
+  | "adder" => some .adder | "summer" => some .summer | "maxer" => some .maxer
+  | "miner" => some .miner | "etl" => some .etl | "cetl" => some .cetl | _ => none
+
+structure Reading where
+  h : Nat
+  base : Int × Int            -- sums of the adds completed when the read started (value, count)
+  over : List (Int × Int)     -- adds that overlap the read so far
+
+structure World where
+  kinds : List (Nat × Kind) := []
+  adder : Fam Int := Fam.init Adder.cfg
+  summer : Fam Summer.Cell := Fam.init Summer.cfg
+  maxer : Cmp.State := { fam := Fam.init (Cmp.cfg true), ver := fun _ => 0 }
+  miner : Cmp.State := { fam := Fam.init (Cmp.cfg false), ver := fun _ => 0 }
+  etl : Fam Int := Fam.init Raw.etlCfg
+  cetl : Fam Int := Fam.init Raw.cetlCfg
+  done : List (Nat × (Int × Int)) := []          -- handle ↦ (Σ value, Σ count) of completed adds since creation / reset
+  inflight : List (Nat × Nat × (Int × Int)) := []  -- (thread, handle, add) called, not yet returned
+  reading : Option Reading := none
+  reads : Nat := 0
+  creads : Nat := 0
+
+def World.kindOf (w : World) (h : Nat) : Option Kind := (w.kinds.find? (·.1 == h)).map (·.2)
+def World.doneOf (w : World) (h : Nat) : Int × Int := ((w.done.find? (·.1 == h)).map (·.2)).getD (0, 0)
+def World.setDone (w : World) (h : Nat) (v : Int × Int) : World :=
+  { w with done := (h, v) :: w.done.filter (·.1 != h) }
+
+def orErr {α : Type} (o : Option α) (msg : String) : Except String α :=
+  match o with | some a => .ok a | none => .error msg
+
+def ints (ws : List String) : Except String (List Int) :=
+  ws.mapM (fun w => orErr (parseInt? w) s!"bad number `{w}`")
+def nats (ws : List String) : Except String (List Nat) :=
+  ws.mapM (fun w => orErr w.toNat? s!"bad number `{w}`")
+
+def showLoc (l : Loc) : String := s!"(storage {l.k}, slot {l.tid}, offset {l.off})"
+
+/-- apply a thread event to every family -/
+def World.threads (w : World) (f : {β : Type} → Fam β → Option (Fam β)) : Except String World := do
+  let a ← orErr (f w.adder) "thread event rejected (adder family)"
+  let s ← orErr (f w.summer) "thread event rejected (summer family)"
+  let mx ← orErr (f w.maxer.fam) "thread event rejected (maxer family)"
+  let mn ← orErr (f w.miner.fam) "thread event rejected (miner family)"
+  let e ← orErr (f w.etl) "thread event rejected (etl family)"
+  let c ← orErr (f w.cetl) "thread event rejected (cetl family)"
+  pure { w with adder := a, summer := s, maxer := { w.maxer with fam := mx }, miner := { w.miner with fam := mn }, etl := e, cetl := c }
+
+def newMsg (h i : Nat) : String :=
+  s!"new {h}: the model rejects instance id {i} (held by a live instance, handle in use, or not the next never-reused id)"
+
+def World.new (w : World) (h : Nat) (k : Kind) (i : Nat) : Except String World := do
+  let w := { w with kinds := (h, k) :: w.kinds.filter (·.1 != h) }
+  let w := w.setDone h (0, 0)
+  match k with
+  | .adder => do pure { w with adder := ← orErr (newInst Adder.cfg w.adder h i) (newMsg h i) }
+  | .summer => do pure { w with summer := ← orErr (newInst Summer.cfg w.summer h i) (newMsg h i) }
+  | .maxer => do pure { w with maxer := ← orErr (Cmp.step true w.maxer (.new h i)) (newMsg h i) }
+  | .miner => do pure { w with miner := ← orErr (Cmp.step false w.miner (.new h i)) (newMsg h i) }
+  | .etl => do pure { w with etl := ← orErr (newInst Raw.etlCfg w.etl h i) (newMsg h i) }
+  | .cetl => do pure { w with cetl := ← orErr (newInst Raw.cetlCfg w.cetl h i) (newMsg h i) }
+
+def World.drop (w : World) (h : Nat) : Except String World := do
+  let k ← orErr (w.kindOf h) s!"drop of unknown handle {h}"
+  let msg := s!"drop {h}: not a live instance in the model"
+  let w' ← match k with
+    | .adder => do pure { w with adder := ← orErr (dropInst Adder.cfg w.adder h) msg }
+    | .summer => do pure { w with summer := ← orErr (dropInst Summer.cfg w.summer h) msg }
+    | .maxer => do pure { w with maxer := ← orErr (Cmp.step true w.maxer (.drop h)) msg }
+    | .miner => do pure { w with miner := ← orErr (Cmp.step false w.miner (.drop h)) msg }
+    | .etl => do pure { w with etl := ← orErr (dropInst Raw.etlCfg w.etl h) msg }
+    | .cetl => do pure { w with cetl := ← orErr (dropInst Raw.cetlCfg w.cetl h) msg }
+  pure { w' with kinds := w'.kinds.filter (·.1 != h) }
+
+def World.swap (w : World) (a b : Nat) : Except String World := do
+  let k ← orErr (w.kindOf a) s!"move of unknown handle {a}"
+  let k' ← orErr (w.kindOf b) s!"move of unknown handle {b}"
+  if k ≠ k' then throw "move between different kinds"
+  let msg := s!"move {a} {b}: not live instances in the model"
+  let da := w.doneOf a
+  let db := w.doneOf b
+  let w := (w.setDone a db).setDone b da
+  match k with
+  | .adder => do pure { w with adder := ← orErr (swapInst w.adder a b) msg }
+  | .etl => do pure { w with etl := ← orErr (swapInst w.etl a b) msg }
+  | .cetl => do pure { w with cetl := ← orErr (swapInst w.cetl a b) msg }
+  | _ => throw "this kind is not movable"
+
+/-- `local()` + update of thread `t` on `h`; returns the model's location -/
+def World.add (w : World) (t h : Nat) (v : Int × Int) (j : Nat) (pure? : Bool) : Except String (World × Loc) := do
+  let k ← orErr (w.kindOf h) s!"add on unknown handle {h}"
+  let msg := s!"local() of thread {t} on {h}: rejected by the model (dead thread / dead instance / thread id {j} is held by another live thread)"
+  match k with
+  | .adder => do
+    let p ← orErr (updAt Adder.cfg w.adder t h j (if pure? then id else (· + v.1))) msg
+    pure ({ w with adder := p.1 }, p.2)
+  | .summer => do
+    let p ← orErr (updAt Summer.cfg w.summer t h j (if pure? then id else fun x => Summer.addC x (v.1, v.2.toNat))) msg
+    pure ({ w with summer := p.1 }, p.2)
+  | .maxer => do
+    let p ← orErr (updAt (Cmp.cfg true) w.maxer.fam t h j (if pure? then id else Cmp.put true (w.maxer.ver h) v.1)) msg
+    pure ({ w with maxer := { w.maxer with fam := p.1 } }, p.2)
+  | .miner => do
+    let p ← orErr (updAt (Cmp.cfg false) w.miner.fam t h j (if pure? then id else Cmp.put false (w.miner.ver h) v.1)) msg
+    pure ({ w with miner := { w.miner with fam := p.1 } }, p.2)
+  | .etl => do
+    let p ← orErr (updAt Raw.etlCfg w.etl t h j (if pure? then id else (· + v.1))) msg
+    pure ({ w with etl := p.1 }, p.2)
+  | .cetl => do
+    let p ← orErr (updAt Raw.cetlCfg w.cetl t h j (if pure? then id else (· + v.1))) msg
+    pure ({ w with cetl := p.1 }, p.2)
+
+def World.reset (w : World) (h : Nat) : Except String World := do
+  let k ← orErr (w.kindOf h) s!"reset of unknown handle {h}"
+  let msg := s!"reset {h}: not a live instance in the model"
+  let w := w.setDone h (0, 0)
+  match k with
+  | .adder => do pure { w with adder := ← orErr (Adder.step w.adder (.reset h)) msg }
+  | .maxer => do pure { w with maxer := ← orErr (Cmp.step true w.maxer (.reset h)) msg }
+  | .miner => do pure { w with miner := ← orErr (Cmp.step false w.miner (.reset h)) msg }
+  | .etl => do pure { w with etl := ← orErr (Babylon.Counter.step Raw.etlCfg w.etl (.each h (fun _ => 0))) msg }
+  | .cetl => do pure { w with cetl := ← orErr (Babylon.Counter.step Raw.cetlCfg w.cetl (.each h (fun _ => 0))) msg }
+  | .summer => throw "a summer has no reset"
+
+/-- what a quiescent read returns in the model, as the words the harness prints -/
+def World.read (w : World) (h : Nat) : Except String (List String) := do
+  let k ← orErr (w.kindOf h) s!"read of unknown handle {h}"
+  let dead := s!"read {h}: not a live instance in the model"
+  match k with
+  | .adder => do pure [toString (← orErr (Adder.value w.adder h) dead)]
+  | .summer => do
+    let v ← orErr (Summer.value w.summer h) dead
+    pure [toString v.1, toString v.2]
+  | .maxer => do
+    match ← orErr (Cmp.value true w.maxer h) dead with
+    | some v => pure ["1", toString v]
+    | none => pure ["0", "0"]
+  | .miner => do
+    match ← orErr (Cmp.value false w.miner h) dead with
+    | some v => pure ["1", toString v]
+    | none => pure ["0", "0"]
+  | .etl => do
+    let cells ← orErr (forEach Raw.etlCfg w.etl h) dead
+    pure [toString (sumInts cells), toString cells.length]
+  | .cetl => do
+    let cells ← orErr (forEach Raw.cetlCfg w.cetl h) dead
+    pure [toString (sumInts cells), toString cells.length]
+
+def World.aread (w : World) (h : Nat) (const : Bool) : Except String (List String) := do
+  let k ← orErr (w.kindOf h) s!"for_each_alive on unknown handle {h}"
+  let ub := s!"for_each_alive {h}: in the model a live thread id is not below the storage size — the unclipped overload reads the block table out of bounds"
+  let r ← match k with
+    | .etl => orErr (if const then forEachAliveConst Raw.etlCfg w.etl h else forEachAlive Raw.etlCfg w.etl h) ub
+    | .cetl => orErr (if const then forEachAliveConst Raw.cetlCfg w.cetl h else forEachAlive Raw.cetlCfg w.cetl h) ub
+    | _ => throw "for_each_alive is exercised on the bare thread-locals only"
+  pure (toString (sumInts (r.map (·.2))) :: r.map (fun p => toString p.1))
+
+def pairOf (k : Kind) (vs : List Int) : Except String (Int × Int) :=
+  match k, vs with
+  | .summer, [a, b] => .ok (a, b)
+  | .summer, _ => .error "summer add needs `sum num`"
+  | _, [a] => .ok (a, 1)
+  | _, _ => .error "add needs one value"
+
+def addP (a b : Int × Int) : Int × Int := (a.1 + b.1, a.2 + b.2)
+def lo (xs : List (Int × Int)) : Int × Int := xs.foldl (fun a x => (a.1 + min x.1 0, a.2 + min x.2 0)) (0, 0)
+def hi (xs : List (Int × Int)) : Int × Int := xs.foldl (fun a x => (a.1 + max x.1 0, a.2 + max x.2 0)) (0, 0)
+
+def stepEv (w : World) (t : Nat) (ws : List String) : Except String World := do
+  match ws with
+  | ["tstart"] => w.threads (fun f => threadStart f t)
+  | ["texit"] => w.threads (fun f => threadExit f t)
+  | ["new", h, k, i] => do
+    let k ← orErr (Kind.ofString k) "unknown kind"
+    let [h, i] ← nats [h, i] | throw "bad new"
+    w.new h k i
+  | ["drop", h] => do
+    let [h] ← nats [h] | throw "bad drop"
+    w.drop h
+  | ["mvnew", h', h, i'] => do
+    let [h', h, i'] ← nats [h', h, i'] | throw "bad mvnew"
+    let k ← orErr (w.kindOf h) s!"move from unknown handle {h}"
+    let w ← w.new h' k i'
+    w.swap h' h
+  | ["mvasg", h', h] => do
+    let [h', h] ← nats [h', h] | throw "bad mvasg"
+    w.swap h' h
+  | "call" :: "add" :: h :: vs => do
+    let [h] ← nats [h] | throw "bad add"
+    let k ← orErr (w.kindOf h) s!"add on unknown handle {h}"
+    let v ← pairOf k (← ints vs)
+    let w := { w with inflight := (t, h, v) :: w.inflight }
+    match w.reading with
+    | some r => pure (if r.h = h then { w with reading := some { r with over := v :: r.over } } else w)
+    | none => pure w
+  | "ret" :: "add" :: h :: rest => do
+    let [h] ← nats [h] | throw "bad add"
+    let k ← orErr (w.kindOf h) s!"add on unknown handle {h}"
+    let n := rest.length
+    if n < 4 then throw "bad ret add"
+    let v ← pairOf k (← ints (rest.take (n - 3)))
+    let [ok, otid, ooff] ← nats (rest.drop (n - 3)) | throw "bad location"
+    let (w, l) ← w.add t h v otid false
+    if l ≠ ⟨ok, otid, ooff⟩ then
+      throw s!"local() of thread {t} on {h} landed at {showLoc ⟨ok, otid, ooff⟩}, the model says {showLoc l}"
+    let w := { w with inflight := w.inflight.filter (fun x => !(x.1 == t && x.2.1 == h)) }
+    pure (w.setDone h (addP (w.doneOf h) v))
+  | ["local", h, ok, otid, ooff] => do
+    let [h, ok, otid, ooff] ← nats [h, ok, otid, ooff] | throw "bad local"
+    let (w, l) ← w.add t h (0, 0) otid true
+    if l ≠ ⟨ok, otid, ooff⟩ then
+      throw s!"local() of thread {t} on {h} landed at {showLoc ⟨ok, otid, ooff⟩}, the model says {showLoc l}"
+    pure w
+  | ["reset", h] => do
+    let [h] ← nats [h] | throw "bad reset"
+    w.reset h
+  | "read" :: h :: obs => do
+    let [h] ← nats [h] | throw "bad read"
+    let want ← w.read h
+    if want ≠ obs then throw s!"quiescent read of {h} returned {obs}, the model says {want}"
+    pure { w with reads := w.reads + 1 }
+  | "aread" :: h :: obs => do
+    let [h] ← nats [h] | throw "bad aread"
+    let want ← w.aread h false
+    if want ≠ obs then throw s!"for_each_alive of {h} gave (sum, slots…) {obs}, the model says {want}"
+    pure { w with reads := w.reads + 1 }
+  | "acread" :: h :: obs => do
+    let [h] ← nats [h] | throw "bad acread"
+    let want ← w.aread h true
+    if want ≠ obs then throw s!"const for_each_alive of {h} gave (sum, slots…) {obs}, the model says {want}"
+    pure { w with reads := w.reads + 1 }
+  | ["call", "cread", h] => do
+    let [h] ← nats [h] | throw "bad cread"
+    if w.reading.isSome then throw "nested concurrent read"
+    let over := (w.inflight.filter (·.2.1 == h)).map (·.2.2)
+    pure { w with reading := some { h := h, base := w.doneOf h, over := over } }
+  | "ret" :: "cread" :: h :: obs => do
+    let [h] ← nats [h] | throw "bad cread"
+    let r ← orErr w.reading "ret cread without call"
+    if r.h ≠ h then throw "ret cread of another handle"
+    let vs ← ints obs
+    let l := addP r.base (lo r.over)
+    let u := addP r.base (hi r.over)
+    let k ← orErr (w.kindOf h) "cread of unknown handle"
+    match k, vs with
+    | .summer, [a, b] =>
+      if l.1 ≤ a ∧ a ≤ u.1 ∧ l.2 ≤ b ∧ b ≤ u.2 then pure { w with reading := none, creads := w.creads + 1 }
+      else throw s!"concurrent read of summer {h} returned ({a}, {b}), outside [{l.1}, {u.1}] x [{l.2}, {u.2}]"
+    | _, a :: _ =>
+      if l.1 ≤ a ∧ a ≤ u.1 then pure { w with reading := none, creads := w.creads + 1 }
+      else throw s!"concurrent read of {h} returned {a}, outside [{l.1}, {u.1}] (adds completed before the read started … adds started before it ended)"
+    | _, _ => throw "bad cread values"
+  | _ => pure w     -- ORACLE verdicts, notes, statistics
+
+def stepObs (w : World) (o : Obs) : Except String World :=
+  match o.kind, o.args with
+  | "ev", ws => stepEv w o.tid ws
+  | _, _ => .ok w   -- spawn / join / exit / race lines of VRT
+
+def main : IO Unit := do
+  replayLoop (← IO.getStdin) (fun _ => ({} : World)) stepObs (fun _ => .ok ())
